@@ -1,7 +1,113 @@
 import Aqv.Base.Proto
-open Aqv Aqv.Proto
+import Aqv.Gen.Rpc
+open Aqv Aqv.Proto Aqv.Model.Rpc Aqv.Gen.Rpc
 
-/-- stub driver for C18 (answers every case line with "bad-op"); replaced when the property is built. -/
-def handle (l : String) : String := let _ := l; "bad-op\tagree"
+/-!
+  Model driver for C18. Case lines (written by go/harness/cmd/c18):
+
+    F <env>                                   go: inproc=b ipc=b http=b ws=b all=b      flags as package rpc read them
+    X <kind> <env> <cfg> <transport>          go: sorted keys of Server.services        exact exposed set
+    M <kind> <env> <cfg> <transport>          go: rpc_modules answer                    exposed namespaces
+    S <kind> <env> <cfg> <transport> <key> <variant>
+                                              go: <signed|entered|quiet> <outcome> <evidence> <delta>
+
+  <env> = five bits (inproc ipc http ws all), <cfg> = h=<mods|->;w=<mods|->;a=<0|1>, <key> = ns.name(=|~)rcvr.GoName.
+  The judgements use the definitions the theorems of Aqv.Props.C18 are about: `exposed`, `signs`, `optedIn`.
+-/
+
+def parseEnv (s : String) : Option Env :=
+  match s.toList.map (· == '1') with
+  | [a, b, c, d, e] => some ⟨a, b, c, d, e⟩
+  | _ => none
+
+def parseKind : String → Option Kind
+  | "pow" => some .pow
+  | "clique" => some .clique
+  | _ => none
+
+def parseTransport (s : String) : Option Transport := Transport.all.find? (fun t => t.name == s)
+
+def parseMods (s : String) : List String := if s == "-" || s == "" then [] else s.splitOn ","
+
+def parseCfg (s : String) : Cfg :=
+  (s.splitOn ";").foldl (fun c part =>
+    match part.splitOn "=" with
+    | ["h", v] => { c with httpModules := parseMods v }
+    | ["w", v] => { c with wsModules := parseMods v }
+    | ["a", v] => { c with wsExposeAll := v == "1" }
+    | _ => c) Cfg.default
+
+def b01 (b : Bool) : String := if b then "1" else "0"
+
+def joinOrDash (l : List String) : String := if l.isEmpty then "-" else ",".intercalate l
+
+def findMethod (key : String) : Option Method := methods.find? (fun m => m.key == key)
+
+/-- Spec judgement of an exposed set observed on the real node: no listed method that can reach signing without the opt-in,
+    and (second sentence of the property) an opted-in transport offers the protected methods of the modules it serves. -/
+def judgeExposure (k : Kind) (cfg : Cfg) (env : Env) (t : Transport) (goKeys : List String) : Option String :=
+  let bad := goKeys.filter (fun key =>
+    match findMethod key with
+    | some m => signs k m && !optedIn env t
+    | none => false)
+  match bad with
+  | b :: _ => some ("exposes-signer-without-opt-in:" ++ b)
+  | [] =>
+    let missing := (methods.filter (fun m => exposed params k cfg env t m && isProtected params m.goName && !m.isSub
+                      && optedIn env t && !goKeys.contains m.key))
+    match missing with
+    | m :: _ => some ("opt-in-does-not-enable:" ++ m.key)
+    | [] => none
+
+def handle (l : String) : String :=
+  let (inp, go) := splitCase l
+  match fields inp with
+  | ["F", bits] =>
+    match parseEnv bits with
+    | none => "bad-op\tagree"
+    | some e =>
+      let m := s!"inproc={b01 e.inproc} ipc={b01 e.ipc} http={b01 e.http} ws={b01 e.ws} all={b01 e.all}"
+      -- an environment the process did not read as intended voids every other line of that child: not spec-acceptable
+      verdict m go false "environment-not-read-as-set"
+  | ["X", ks, bits, cfgs, ts] =>
+    match parseKind ks, parseEnv bits, parseTransport ts with
+    | some k, some env, some t =>
+      let cfg := parseCfg cfgs
+      let m := joinOrDash (exposedKeys params methods k cfg env t)
+      if m == go then m ++ "\tagree"
+      else
+        match judgeExposure k cfg env t (parseMods go) with
+        | some why => m ++ "\tspec-reject:" ++ why
+        | none => m ++ "\tspec-ok"
+    | _, _, _ => "bad-op\tagree"
+  | ["M", ks, bits, cfgs, ts] =>
+    match parseKind ks, parseEnv bits, parseTransport ts with
+    | some k, some env, some t =>
+      let m := joinOrDash (modules params methods k (parseCfg cfgs) env t)
+      verdict m go true ""
+    | _, _, _ => "bad-op\tagree"
+  | ["S", ks, bits, _cfgs, ts, key, _variant] =>
+    match parseKind ks, parseEnv bits, parseTransport ts with
+    | some k, some env, some t =>
+      let (obs, outcome) := match fields go with
+        | o :: oc :: _ => (o, oc)
+        | _ => ("?", "?")
+      let produced := obs == "signed" || (obs == "entered" && outcome == "ok")
+      let touched := obs == "signed" || obs == "entered"
+      let opted := optedIn env t
+      match findMethod key with
+      | none =>
+        let m := "unknown-method opted=" ++ b01 opted
+        if produced && !opted then m ++ "\tspec-reject:signed-without-opt-in"
+        else m ++ "\tspec-ok"
+      | some row =>
+        let may := signs k row
+        let m := (if may then "may-sign" else "never-signs") ++ " opted=" ++ b01 opted
+        if produced && !opted then m ++ "\tspec-reject:signed-without-opt-in"
+        else if touched && !may then m ++ "\tspec-ok"   -- the static analysis missed a signing path: the tie is broken
+        else if obs == "signed" || obs == "entered" || obs == "quiet" then m ++ "\tagree"
+        else m ++ "\tspec-ok"
+    | _, _, _ => "bad-op\tagree"
+  | _ => "bad-op\tagree"
 
 def main : IO Unit := runLines handle
